@@ -553,14 +553,29 @@ func c14Run(c *engine.Ctx) {
 				for _, hrev := range []bool{false, true} {
 					h1 := ringF(rot(h, hi%len(h), hrev), off)
 					c14Exec(c, c14Case{Mode: "polygons", Layout: l, Rings: [][]ref.F{shell, h1}, Counts: []int{2}})
-					if c.Thorough() {
-						for hj := hi + 1; hj < len(holes); hj += 2 {
-							// disjoint: distinct cells of the half-integer lattice never touch
-							if holes[hj][0] == h[0] {
-								continue
-							}
-							h2 := ringF(rot(holes[hj], 0, !hrev), off)
+					// a second hole (quick: the next two candidates; thorough: every second one) in
+					// both directions, so that holes of one polygon wind alike and differently, and
+					// for the first pair a third hole
+					last := len(holes)
+					step := 2
+					if !c.Thorough() {
+						last, step = hi+3, 1
+					}
+					for hj := hi + 1; hj < len(holes) && hj < last; hj += step {
+						// disjoint: distinct cells of the half-integer lattice never touch
+						if holes[hj][0] == h[0] {
+							continue
+						}
+						for _, h2rev := range []bool{false, true} {
+							h2 := ringF(rot(holes[hj], 0, h2rev), off)
+							c.Count("two_hole_polygons", 1)
 							c14Exec(c, c14Case{Mode: "polygons", Layout: l, Rings: [][]ref.F{shell, h1, h2}, Counts: []int{3}})
+							if hk := hj + 2; hj == hi+1 && hk < len(holes) && holes[hk][0] != h[0] && holes[hk][0] != holes[hj][0] {
+								for _, h3rev := range []bool{false, true} {
+									h3 := ringF(rot(holes[hk], 1, h3rev), off)
+									c14Exec(c, c14Case{Mode: "polygons", Layout: l, Rings: [][]ref.F{shell, h1, h2, h3}, Counts: []int{4}})
+								}
+							}
 						}
 					}
 				}
@@ -600,6 +615,45 @@ func c14Run(c *engine.Ctx) {
 			}
 		}
 	}
+	// zero-area polygons that are not collinear: a bent path walked out and back (A B C B A and
+	// A B C D C B A), every path of 3 vertices and every fourth path of 4 vertices on the 3x3 grid with
+	// distinct consecutive vertices, from either end; alone and next to a collinear zero-area member
+	var g3 []ref.P2
+	for x := 0; x < 3; x++ {
+		for y := 0; y < 3; y++ {
+			g3 = append(g3, ref.P2{X: float64(x), Y: float64(y)})
+		}
+	}
+	var paths [][]ref.P2
+	for _, a := range g3 {
+		for _, b := range g3 {
+			for _, cc := range g3 {
+				if a == b || b == cc {
+					continue
+				}
+				paths = append(paths, []ref.P2{a, b, cc})
+				for k, d := range g3 {
+					if d != cc && (k+len(paths))%4 == 0 {
+						paths = append(paths, []ref.P2{a, b, cc, d})
+					}
+				}
+			}
+		}
+	}
+	c.Note("out_and_back_paths", len(paths))
+	c.Parallel(len(paths), func(i int) {
+		pth := paths[i]
+		ring := append([]ref.P2{}, pth...)
+		for k := len(pth) - 2; k >= 1; k-- {
+			ring = append(ring, pth[k])
+		}
+		off := offsets[i%3]
+		l := layouts[i%4]
+		c.Count("out_and_back_rings", 1)
+		c14Exec(c, c14Case{Mode: "polygons", Layout: l, Rings: [][]ref.F{ringF(append(ring, ring[0]), off)}, Counts: []int{1}})
+		flatLine := []ref.P2{{X: 5, Y: 5}, {X: 8, Y: 5}, {X: 6, Y: 5}, {X: 5, Y: 5}}
+		c14Exec(c, c14Case{Mode: "polygons", Layout: l, Rings: [][]ref.F{ringF(append(ring, ring[0]), off), ringF(flatLine, off)}, Counts: []int{1, 1}})
+	})
 	for _, k := range []string{"point_centroids", "line_centroids", "rings", "area_centroids", "with_holes", "zero_area_fallbacks"} {
 		if c.Get(k) == 0 {
 			c.Warn("vacuous: class " + k + " is empty")
